@@ -302,11 +302,12 @@ where
     }
 
     /// Size (in bytes) of this header in on-disk representation, not including padding
-    pub(crate) fn size(&self) -> u32 {
-        let index_size = self.index_header.num_entries * INDEX_ENTRY_SIZE;
-        let data_size = self.index_header.data_section_size;
+    pub(crate) fn size(&self) -> u64 {
+        // u64: the sum of two u32 quantities does not fit a u32 for headers close to 4 GiB
+        let index_size = self.index_header.num_entries as u64 * INDEX_ENTRY_SIZE as u64;
+        let data_size = self.index_header.data_section_size as u64;
 
-        INDEX_HEADER_SIZE + index_size + data_size
+        INDEX_HEADER_SIZE as u64 + index_size + data_size
     }
 }
 
